@@ -13,7 +13,7 @@ P = "OdxVerif.OdxLink."
 THEOREMS = [P + t for t in [
     "C10_resolve", "C10_resolve_untyped", "C10_dangling_raises", "C10_innermost_wins", "C10_outer_fallback",
     "C10_update_no_overwrite", "C10_update_spec", "C10_build", "C10_import_view", "C10_import_local",
-    "C10_link_phase", "C10_refresh_wf", "C10_snref_unique", "C10_retarget", "C10_retarget_reach", "C10_retarget_paths",
+    "C10_link_phase", "C10_refresh_wf", "C10_refresh_generation_independent", "C10_refresh_keep_counterexample", "C10_snref_unique", "C10_retarget", "C10_retarget_reach", "C10_retarget_paths",
     "C10_import_local_pinned_counterexample"]]
 RULE = ("databases = 2-3 DIAG-LAYER-CONTAINERs x 1-3 layers (ECU-SHARED-DATA/FUNCTIONAL-GROUP/BASE-VARIANT/ECU-VARIANT, "
         "0-3 PARENT-REFs per layer in any order => hierarchies that branch and join; inheritance conflicts steered away from; "
@@ -25,7 +25,17 @@ RULE = ("databases = 2-3 DIAG-LAYER-CONTAINERs x 1-3 layers (ECU-SHARED-DATA/FUN
         "non-trivial = database with a DOCREF or an import or a layer with several parents that loads, or a history with a copy. "
         "enumerated: enum-retarget-hierarchies = every inheritance graph over {FG,FG,BV,EV} / {ESD,FG,BV,EV} (thorough: "
         "{ESD,FG,FG,BV,EV}) x every set of layers defining the referenced short name x both PARENT-REFS orders, a DOP-SNREF "
-        "in every layer that sees the name, retarget_snrefs to every layer with parents in sequence")
+        "in every layer that sees the name, retarget_snrefs to every layer with parents in sequence. "
+        "call histories on ONE Database object (generations): generation-histories = a generated database, then 2-4 steps "
+        "{container replaced by a revision in which a (mostly referenced) ID-carrying object vanishes / gets another id / two "
+        "objects swap ids / nothing changes, original revision restored, container removed, removed container added again, "
+        "request/response/diag-comm/DOP/structure/field/mux/table taken out of resp. put back into the layer's list in place, everything re-read, "
+        "retarget_snrefs, nothing} each followed by refresh(), documents entering through _process_xml_tree / add_odx_file / "
+        "add_pdx_file; a destructive step is followed by its repair in ~65 %. enumerated: enum-vanishing-ids = for 2 (thorough: 8) "
+        "generated databases EVERY ID-carrying object in turn x {vanishes, gets another id} x {new revision of its container, "
+        "removal from the layer's (resp. its data dictionary's) list in place}, restored in the following generation. After every refresh() all database "
+        "oracles against the description of that generation; on the last generation also the comparison with a pristine "
+        "Database of the same content")
 TRUSTED = ["model lean/OdxVerif/Model/OdxLink.lean is hand-written; tied to odxtools/odxlink.py, DiagLayer._resolve_odxlinks, "
            "Database.refresh and retarget_snrefs by comparing dictionary dumps, bound targets and error classes",
            "the generated description (harness/odxlink_lib.py) states which object carries which id in which layer; the XML "
@@ -33,6 +43,10 @@ TRUSTED = ["model lean/OdxVerif/Model/OdxLink.lean is hand-written; tied to odxt
            "value inheritance is modelled for any number of parents per layer, but without NOT-INHERITED lists and without "
            "inheritance conflicts (full algorithm: C09); the generator keeps the hierarchies conflict-free"]
 ASSUMPTIONS = ["objects stored in an OdxLinkDatabase are never None",
+               "a Database is modified between two refresh() calls only through the diag_layer_containers setter, add_odx_file / "
+               "add_pdx_file / _process_xml_tree and by taking objects out of / putting them back into the lists requests / "
+               "positive_responses / negative_responses / diag_comms_raw of a DiagLayerRaw and data_object_props / structures / "
+               "end_of_pdu_fields / muxs / tables of its DIAG-DATA-DICTIONARY-SPEC (attributes of single objects are not edited)",
                "database level is checked in strict mode; non-strict mode is covered at unit level (resolve / resolve_snref)",
                "Python warnings (OdxWarning for an unknown document fragment) are not turned into errors",
                "COMPARAM-SPEC / COMPARAM-SUBSET documents, DIAG-VARIABLEs, state charts, functional classes and SDG "
@@ -327,9 +341,12 @@ def witness(g, extra=None):
     w = {"kind": "database", "xml": L.to_xml(g), "features": sorted(g.features), "expect_load": getattr(g, "expect_load", None)}
     if extra:
         w.update(extra)
-        if "history" in extra:    # a retarget witness carries the description: the replay evaluates the same oracle
+        if "history" in extra or "generations" in extra:    # the witness carries the description: the replay evaluates the same oracle
             w["description"] = json.loads(json.dumps({"containers": g.containers}))
     return w
+
+
+mk_witness = witness
 
 
 def replay_retarget(w):
@@ -384,10 +401,16 @@ def split_top(s):
     return out
 
 
-def check_database(ctx, g, fam, drv, reps=None):
-    """one generated database through the real loader, the model, the spec and the model-free oracles"""
+def check_database(ctx, g, fam, drv, reps=None, loaded=None, canon=None, tag=(), wit=None):
+    """one generated database through the real loader, the model, the spec and the model-free oracles.
+    `loaded` = (db, err): the Database object was brought to the content of `g` by a call history (generations: modified
+    and refreshed again) instead of being loaded here; `tag` goes into the signature, `wit` into every witness"""
     docs = L.to_xml(g)
-    db, err = L.load(docs)
+    db, err = loaded if loaded is not None else L.load(docs)
+    tag = list(tag)
+
+    def witness(g, extra=None):
+        return mk_witness(g, dict(wit or {}, **(extra or {})))
     if err is None:
         try:   # the walk along the loaded objects must not crash the harness when the code under test changes
             ex = L.Extract(g, db)
@@ -396,7 +419,7 @@ def check_database(ctx, g, fam, drv, reps=None):
         except Exception as e:  # noqa
             db, err = None, "foreign:extract-" + type(e).__name__
     has_docref = any(f in g.features for f in ("form:layer", "form:container"))
-    ctx.case(("db", tuple(docs)), nontrivial=(err is None and (has_docref or "imports" in g.features or "multi-parent" in g.features)))
+    ctx.case(canon or ("db", tuple(docs)), nontrivial=(err is None and (has_docref or "imports" in g.features or "multi-parent" in g.features)))
     ctx.histo("load_outcome", err or "ok")
     for f in g.features:
         if f.startswith("form:") or f.startswith("fault:") or f in ("imports", "dup-name", "import-non-esd"):
@@ -459,19 +482,19 @@ def check_database(ctx, g, fam, drv, reps=None):
             bad = [k for k, v in spec_links.items() if v == "none"] + [k for k, v in sn_expect.items() if v is None]
             which = "imports-of-" + ",".join(u for u, v in spec_layers.items() if v is None) if not bad else bad[0]
             leak = "fault:dangling-leak" in g.features
-            ctx.violate("unresolvable-raises", ["database", "loaded-although-unresolvable"] + (["not-imported-esd-id"] if leak else []),
+            ctx.violate("unresolvable-raises", ["database", "loaded-although-unresolvable"] + (["not-imported-esd-id"] if leak else []) + tag,
                         "no-exception", witness(g, {"reference": which}),
                         f"the database loads although reference {which} cannot be resolved according to the specification"
                         f" (it is bound to object {bound.get(which)})")
         for k, want in spec_links.items():
             if want != "none" and links_now.get(k) != want:
-                ctx.violate("link-target", ["database", "bound-to-other-object"], f"{links_now.get(k)}",
+                ctx.violate("link-target", ["database", "bound-to-other-object"] + tag, f"{links_now.get(k)}",
                             witness(g, {"reference": k, "expected_uid": want}),
                             f"reference {k} is bound to object {links_now.get(k)}, the specification names {want}")
                 break
         for k, want in sn_expect.items():
             if want is not None and sn_now.get(k) != str(want):
-                ctx.violate("snref-target", ["database", "snref-bound-to-other-object"], f"{sn_now.get(k)}",
+                ctx.violate("snref-target", ["database", "snref-bound-to-other-object"] + tag, f"{sn_now.get(k)}",
                             witness(g, {"reference": k, "expected_uid": want}),
                             f"short-name reference {k} is bound to object {sn_now.get(k)}, expected {want}")
                 break
@@ -484,12 +507,13 @@ def check_database(ctx, g, fam, drv, reps=None):
         except Exception as e:  # noqa
             same = f"foreign:{type(e).__name__}"
         if same is not True:
-            ctx.violate("import-local", ["database", "global-link-database-changed-by-refresh"], str(same),
+            ctx.violate("import-local" if not tag else "generation-independent", ["database", "global-link-database-changed-by-refresh"] + tag, str(same),
                         witness(g), "after refresh() Database.odxlinks stores other bindings than a database freshly built "
-                                    "from Database._build_odxlinks() (imported ids leaked into the shared dictionaries)")
+                                    "from Database._build_odxlinks() (" + ("imported ids leaked into the shared dictionaries)" if not tag else
+                                                                          "bindings of an earlier generation of the database survive)"))
     else:
         if not spec_fail and not sn_fail:
-            ctx.violate("resolvable-loads", ["database", "raises-although-resolvable", err], err, witness(g),
+            ctx.violate("resolvable-loads", ["database", "raises-although-resolvable", err] + tag, err, witness(g),
                         f"loading raises {err} although every reference is resolvable according to the specification")
     # ---- correspondence with the model
     ctx.traces += 1
@@ -620,6 +644,149 @@ def check_retarget(ctx, g, db, err, drv, m_links, schedule=None, fam="retarget",
             return    # the bindings after a failed call are unspecified
 
 
+# ---------------------------------------------------------------- call history on ONE Database object: generations
+
+GEN_TAG = ["generation-history"]
+
+
+def pristine_view(g):
+    """what a pristine Database with the content of `g` does: (error class, bound targets, link database)"""
+    db, err = L.load(L.to_xml(g))
+    if err is not None:
+        return err, None, None
+    try:
+        ex = L.Extract(g, db)
+        return None, ex.bound(), parse_dump(ex.dump_links(db.odxlinks))
+    except Exception as e:  # noqa
+        return "foreign:extract-" + type(e).__name__, None, None
+
+
+def generation_independent(g, db, err):
+    """model-free direct oracle: a Database object that was modified and refreshed again resolves every reference like a
+    pristine Database with the same content (same load outcome; same object under every reference attribute; same link
+    database). -> None or what differs"""
+    p_err, p_bound, p_glob = pristine_view(g)
+    if (err is None) != (p_err is None):
+        def say(e):
+            return "loads" if e is None else f"raises {e}"
+        return f"the modified and refreshed database {say(err)}, a pristine database with the same content {say(p_err)}"
+    if err is not None:
+        return None
+    try:
+        ex = L.Extract(g, db)
+        b, glob = ex.bound(), parse_dump(ex.dump_links(db.odxlinks))
+    except Exception as e:  # noqa
+        return "walking the refreshed database fails: " + type(e).__name__
+    for k, v in p_bound.items():
+        if b.get(k) != v:
+            return f"reference {k} is bound to object {b.get(k)}, in a pristine database with the same content to object {v}"
+    if glob != p_glob:
+        return "Database.odxlinks stores other bindings than the link database of a pristine database with the same content"
+    return None
+
+
+def run_generations(ctx, drv, fam, cases, retarget=True):
+    """cases: [(g0, via of the initial load, plan = [(step, g_k)])]. The model / the specification are asked for every
+    generation in one batch; then each history is played on ONE Database object and after every refresh() the
+    oracles of `check_database` (against g_k) and `generation_independent` are evaluated"""
+    lines = [ln for g0, via, plan in cases for step, g in plan for ln in db_lines(g)]
+    reps = drv.query(lines) if lines else []
+    at = 0
+    for g0, via, plan in cases:
+        steps = [{"op": "load", "xml": L.to_xml(g0), "via": via}]
+        state = {}
+        try:
+            db = L.new_database()
+            err = L.run_step(db, steps[0], state)
+        except Exception as e:  # noqa
+            db, err = None, "foreign:" + type(e).__name__
+        ctx.count(f"{fam}_histories")
+        prev_failed = err is not None
+        for n, (step, g) in enumerate(plan):
+            rep3 = reps[at:at + 3]
+            at += 3
+            steps = steps + [step]
+            try:
+                err = L.run_step(db, step, state)
+            except Exception as e:  # noqa
+                err = "foreign:" + type(e).__name__
+            ctx.count("generation_checks")
+            ctx.histo("generation_step", step["op"] + ("/" + step["via"] if "via" in step else ""))
+            ctx.histo("generation_edit", step["info"]["edit"] + ("/referenced" if step["info"].get("referenced") else ""))
+            wit = {"generations": steps}
+            canon = ("gen", json.dumps(steps, sort_keys=True))
+            # (signature: histories that edit a list of a DIAG-DATA-DICTIONARY-SPEC in place are told apart)
+            tag = GEN_TAG + (["ddds-list-edited-in-place"] if any(str(s.get("list", "")).startswith("ddds.") for s in steps) else [])
+            try:
+                _, _, (mr, ml) = check_database(ctx, g, fam, drv, reps=rep3, loaded=(db if err is None else None, err),
+                                                canon=canon, tag=tag, wit=wit)
+                ctx.histo("generation_outcome", f"{'after-failed-refresh' if prev_failed else 'after-good-refresh'}/expect-{g.expect_load}")
+                # (the pristine twin costs a complete parse: evaluated on the last generation of each history)
+                why = generation_independent(g, db, err) if n == len(plan) - 1 else None
+                if why is not None:
+                    ctx.violate("generation-independent", ["database", "differs-from-pristine-database"] + tag, "differs",
+                                mk_witness(g, wit),
+                                f"after {' / '.join(s['op'] for s in steps)} (refresh() after each): {why}")
+                if retarget and err is None and n == len(plan) - 1 and len(steps) % 2 == 0:   # (one driver call each: every other history)
+                    check_retarget(ctx, g, db, err, drv, ml)
+            except RuntimeError:
+                raise
+            except Exception as e:  # noqa  (implementation changed under the extraction code: data, not a crash)
+                ctx.disagree("extract", {"generations": steps}, "n/a", "foreign:" + type(e).__name__)
+            prev_failed = err is not None
+
+
+def gen_generation_cases(ctx, n, fam):
+    """random family `generation-histories`: a generated database (mostly valid) + 2-4 modification steps"""
+    cases = []
+    for i in range(n):
+        r = ctx.sub_rng(fam, i)
+        g0 = L.gen_database(r, PROFILES["valid" if r.random() < 0.85 else "faulty"])
+        plan = L.plan_history(g0, r, r.choice([2, 3, 3, 4]))
+        if plan:
+            cases.append((g0, r.choice(["tree", "file", "pdx"]), plan))
+    return cases
+
+
+def enum_vanishing_cases(ctx, n_bases):
+    """enumerated small scope `enum-vanishing-ids`: for each base database, EVERY ID-carrying object in turn x
+    {vanishes, gets another id} x {new revision of its container, removal from the layer's list in place (requests,
+    responses, diag-comms)}; the following generation restores it"""
+    cases = []
+    vias = ["tree", "file", "pdx"]
+    for b in range(n_bases):
+        g0 = L.gen_database(ctx.sub_rng("enum-vanishing-ids", b), PROFILES["valid"])
+        for X, k, holder, o in L.id_objects(g0):
+            for edit in ("drop", "reid"):
+                for mode in ("replace", "inplace"):
+                    if mode == "inplace" and (edit != "drop" or k not in L.INPLACE):
+                        continue
+                    plan = L.plan_vanish(g0, (X["name"], k, o["id"]), edit, mode, vias[len(cases) % 3])
+                    if plan is None:
+                        ctx.count("enum_vanishing_skipped_inheritance_conflict")
+                    else:
+                        cases.append((g0, "tree", plan))
+    return cases
+
+
+def replay_generations(w):
+    """play the recorded history on one Database object; the model-free oracle on the last generation"""
+    g = L.Gen(random.Random(0), PROFILES["valid"])
+    g.containers = w["description"]["containers"]
+    g.layers = [X for c in g.containers for X in c["layers"]]
+    try:
+        db, state, err = L.new_database(), {}, None
+        for step in w["generations"]:
+            err = L.run_step(db, step, state)
+    except Exception as e:  # noqa
+        db, err = None, "foreign:" + type(e).__name__
+    if w.get("expect_load") == "raises" and err is None:
+        return False
+    if w.get("expect_load") == "ok" and err is not None:
+        return False
+    return generation_independent(g, db, err) is None
+
+
 def on_first_parent_path(g, T, X):
     """is X reached from T by following only the first PARENT-REF of every layer?"""
     Y = T
@@ -670,6 +837,37 @@ def corpus_database():
     return g
 
 
+def corpus_generations():
+    """defect found on the pinned commit (round 6): ECU-SHARED-DATA `S` defines the DOPs `X` and `Y` and a request whose
+    parameter has DOP-SNREF `X`. After loading, `X` is taken out of `S.diag_layer_raw.diag_data_dictionary_spec.
+    data_object_props` and the database is refreshed: the short name `X` is no longer defined anywhere, refresh() must
+    raise (a pristine database with this content does); the pinned code stays bound to the removed object through the
+    `all_data_object_properties` list computed once in `__post_init__`. Next generation: `X` is put back -> loads."""
+    g = L.Gen(random.Random(1), PROFILES["valid"])
+    S = L.new_layer(g, "S", "ECU-SHARED-DATA", "C1")
+    B = L.new_layer(g, "B", "BASE-VARIANT", "C1")
+    g.containers = [{"name": "C1", "uid": g.new_uid(), "layers": [S, B]}]
+    g.layers = [S, B]
+    for X in (S, B):
+        n = X["name"]
+        X["dops"].append(g.obj("dop", f"{n}.d1", "X"))
+        X["dops"].append(g.obj("dop", f"{n}.d2", "Y"))
+        rq = dict(g.obj("request", f"{n}.r1", "Rq"), params=[])
+        rq["params"].append({"uid": g.new_uid(), "kind": "param", "sn": "q0", "ptype": "VALUE",
+                             "dop_ref": {"key": f"{n}.request.r1.q0.dop", "mode": "sn", "name": "X", "pools": L.ALL_DOPS,
+                                         "exp": "DopBase", "items": None}})
+        X["requests"].append(rq)
+        sv = g.obj("service", f"{n}.s1", f"Sv{n}")
+        sv.update(request=L.own_ref(g, X, rq, f"{n}.service.s1.request", "Request"), pos=[], neg=[])
+        X["services"].append(sv)
+    g.features |= {"form:snref", "form:rel"}
+    cases = []
+    for lname in ("S", "B"):
+        plan = L.plan_vanish(g, (lname, "dops", f"{lname}.d1"), "drop", "inplace", "tree")
+        cases.append((g, "tree", plan))
+    return cases
+
+
 # ---------------------------------------------------------------- entry points
 
 def run(ctx):
@@ -710,6 +908,7 @@ def run(ctx):
         check_history(ctx, ops, "corpus", pending)
     g = corpus_database()
     db, err, (mr, ml) = check_database(ctx, g, "corpus", drv)
+    run_generations(ctx, drv, "corpus", corpus_generations(), retarget=False)
     # (b) unit level histories
     for n in range(8000 if big else 1500):
         ops = gen_history(rng, rng.choice([3, 6, 10, 16, 24]))
@@ -740,6 +939,12 @@ def run(ctx):
                 check_retarget(ctx, g, db, err, drv, ml)
             except Exception as e:  # noqa  (implementation changed under the extraction code: data, not a crash)
                 ctx.disagree("extract", {"xml": L.to_xml(g)}, "n/a", "foreign:" + type(e).__name__)
+
+    # (e) call histories on ONE Database object: modified and refreshed again (generations)
+    fam = "enum-vanishing-ids"
+    run_generations(ctx, drv, fam, enum_vanishing_cases(ctx, 8 if big else 2), retarget=False)
+    fam = "generation-histories"
+    run_generations(ctx, drv, fam, gen_generation_cases(ctx, 2000 if big else 200, fam))
 
 
 def enum_schedule(g, tag):
@@ -787,6 +992,8 @@ def replay(ctx, data):
         return got == want
     if w.get("kind") == "database" and "history" in w:
         return replay_retarget(w)
+    if w.get("kind") == "database" and "generations" in w:
+        return replay_generations(w)
     if w.get("kind") == "database":
         db, err = L.load(w["xml"])
         # partial replay (the description is not part of the witness): the load outcome the specification demands,
